@@ -432,6 +432,19 @@ fn sweep_bfv<W: Word + TryFrom<u128>>(sw: &mut Sweep, wname: &str) {
                         probe_bfv(b);
                     }
                 }),
+                ("new_overwide_then_probe", &|_b, n, _| {
+                    // a bit width larger than the word: rejected, or a vector that stays in its storage
+                    for w in [W::BITS + 1, 2 * W::BITS + 3] {
+                        if let Ok(mut x) = catch(|| BitFieldVec::<W>::new(w, n.min(1000))) {
+                            probe_bfv(&mut x);
+                        }
+                        if let Ok(mut x) = catch(|| BitFieldVec::<W>::with_capacity(w, n.min(1000))) {
+                            let _ = catch(|| x.push(W::ZERO));
+                            let _ = catch(|| x.resize(n.min(1000), W::ZERO));
+                            probe_bfv(&mut x);
+                        }
+                    }
+                }),
                 ("extend_panicking_iter_then_probe", &|b, n, _| {
                     let k = n.min(300);
                     let m = b.mask();
